@@ -402,7 +402,7 @@ def check_conversions(env, n):
 GENERIC_NAMES = """
 from dataclasses import dataclass, field
 from typing import Generic, List, Optional, TypeVar
-from apischema import type_name
+from apischema import serialized, type_name
 T = TypeVar("T")
 
 @type_name(lambda tp, arg: f"{{arg.__name__}}Resource{n}")
@@ -416,6 +416,24 @@ class Resource{n}(Generic[T]):
 class Pair{n}(Generic[T]):
     left: T
     right: T
+
+@dataclass
+class Leaf{n}:
+    x: int = 0
+
+@dataclass
+class Tree{n}:
+    children: List["Tree{n}"] = field(default_factory=list)
+
+@dataclass
+class Box{n}(Generic[T]):  # the type parameter only occurs in the return types of serialized methods
+    label: str = ""
+    @serialized
+    def content(self) -> Optional[T]:
+        return None
+    @serialized
+    def all_of_them(self) -> List[T]:
+        return []
 
 @dataclass
 class Holder{n}:
@@ -445,8 +463,12 @@ def check_generic_names(env, n):
         R, P, H = getattr(mod, f"Resource{n}"), getattr(mod, f"Pair{n}"), getattr(mod, f"Holder{n}")
         cases = [("Resource[int]", R[int], {f"intResource{n}"}), ("Resource (bare)", R, set()), ("Holder", H, {f"intResource{n}", f"strResource{n}", f"Pair{n}Ofint", f"Holder{n}"}),
                  ("List[Resource[str]]", mod.List[R[str]], {f"strResource{n}"}), ("Pair (bare)", P, set())]
-        for label, T_, want_all in cases:
+        B, Lf, Tr = getattr(mod, f"Box{n}"), getattr(mod, f"Leaf{n}"), getattr(mod, f"Tree{n}")
+        ser_cases = [("Box[Leaf]", B[Lf], {f"Leaf{n}"}), ("Box[Tree]", B[Tr], {f"Tree{n}"}), ("List[Box[Tree]]", mod.List[B[Tr]], {f"Tree{n}"})]
+        for label, T_, want_all in cases + ser_cases:
             for fn in (deserialization_schema, serialization_schema):
+                if (label, T_, want_all) in ser_cases and fn is deserialization_schema:
+                    continue  # (the parameter does not occur on the deserialization side)
                 for all_refs in (True, False):
                     o = harness.call(fn, T_, all_refs=all_refs)
                     env.count("generic_type_name_checks")
